@@ -33,6 +33,10 @@ Definition peak_floor_w (D eps scale : Q) : Q := (D - 2 * eps) * scale.
 Definition positive_weights (n : nat) (w : list Q) : Prop :=
   length w = n /\ Forall (fun x => 0 < x) w.
 
+(* every weight lies in [wmin, wmax] *)
+Definition weights_between (wmin wmax : Q) (w : list Q) : Prop :=
+  Forall (fun x => wmin <= x /\ x <= wmax) w.
+
 (* the peaks of a level that survive a threshold tau: extract(|conv[peaks]| >= tau, peaks) *)
 Definition keep_ge (conv : list Q) (tau : Q) (peaks : list Z) : list Z :=
   filter (fun k => Qle_bool tau (Qabs (at_ conv k))) peaks.
